@@ -23,6 +23,13 @@ Extends the A5 pattern-matrix evaluator (lib/tables.py) with small finite abstra
             where D is a closure `|c| c.is_ascii_digit()` (or the path `..::is_ascii_digit`, or `|c| c.is_digit(10)`), and
             D' the same predicate on the second component of an `(index, char)` pair.
 
+  path conditions   A condition the abstract inputs do not decide (`if c`, `if let P = v`, a match arm's pattern or guard)
+            forks the evaluation: both outcomes are explored, each under the condition (`Ev.gstack`), and every effect
+            recorded in `Ev.fx` carries the conditions it was executed under (`Ev.fx.guards[i]`, `Ev.guards_of(e)`).  A
+            `return` under such a condition puts the rest of the function under its negation.  A decision-table cell is
+            therefore (effects, values, guards): an effect that the code performs only under an extra, uninterpreted
+            condition is visible to the rule as a guarded effect, never as an unconditional one.
+
 Nothing of /repo is executed: the evaluator walks the typed HIR of the current tree; anything it does not model
 evaluates to an uninterpreted symbol, and `has_sym` lets the rule fail closed on it.
 """
@@ -236,13 +243,32 @@ def _has_positive_pos(v):
     return False
 
 
+class Fx(list):
+    """effects in evaluation order; `guards[i]` = the undecided conditions effect i was executed under."""
+
+    def __init__(self, ev):
+        super().__init__()
+        self.ev = ev
+        self.guards = []
+
+    def append(self, e):
+        super().append(e)
+        self.guards.append(tuple(self.ev.gstack))
+
+
+def _neg(g):
+    return g[5:-1] if g.startswith("not (") and g.endswith(")") else "not (%s)" % g
+
+
 class Ev(T.Evaluator):
     def __init__(self, inline=None, cls=None, parse=None, hooks=None, max_inline=8):
         super().__init__(inline=inline or {}, max_inline=max_inline)
         self.cls = dict(cls or {})        # atom -> digit class
         self.parse = dict(parse or {})    # atom -> value of `.parse::<int>()`
         self.hooks = dict(hooks or {})    # callee name -> fn(args, node) -> value | None
-        self.fx = []                      # structured effects: (kind, ...) with evaluated operands
+        self.gstack = []                  # undecided conditions (text) the current point of the evaluation is under
+        self.cret = []                    # (condition, value) of `return`s taken under an undecided condition in the current function
+        self.fx = Fx(self)                # structured effects: (kind, ...) with evaluated operands; fx.guards[i] = their path condition
         self.parse_types = []             # result types of the `parse` calls seen
         self.unknown = []                 # descriptions of constructs that were not understood
         self.opaque_inline = False        # an inlined helper whose result stays uninterpreted becomes the opaque term call:<fn>(args)
@@ -254,10 +280,26 @@ class Ev(T.Evaluator):
         node, env = clo[1], clo[2]
         for p, a in zip(node["params"], args):
             T.match_pat(p, a, env)
+        return self._frame(lambda: self.ev(node["body"], env))
+
+    def _frame(self, thunk, wrap_return=None):
+        """evaluate a function / closure body: `return` ends it; conditions and values of returns taken under an undecided
+        condition stay local to it (the result becomes the conditional value)."""
+        gbase, saved = len(self.gstack), self.cret
+        self.cret = []
         try:
-            return self.ev(node["body"], env)
-        except T.Return as r:
-            return r.v
+            try:
+                res = thunk()
+            except T.Return as r:
+                res = wrap_return(r.v) if wrap_return else r.v
+            for cond, v in reversed(self.cret):
+                v = wrap_return(v) if wrap_return else v
+                if v != res:                        # the same value either way: the condition does not matter
+                    res = term("if", cond, v, res)
+            return res
+        finally:
+            del self.gstack[gbase:]
+            self.cret = saved
 
     def atom_cls(self, v):
         if v[0] == "name":
@@ -266,6 +308,52 @@ class Ev(T.Evaluator):
             if len(v[1]) == 1 and v[1][0][0] == "a":
                 return self.cls.get(v[1][0][1])
         return None
+
+    def guards_of(self, e):
+        """undecided conditions the recorded effect `e` (an element of self.fx, by identity) was executed under."""
+        for x, g in zip(self.fx, self.fx.guards):
+            if x is e:
+                return g
+        return ()
+
+    def _fork(self, cond, then, other):
+        """Both outcomes of the undecided condition `cond` (a value): `then()` under it, `other()` under its negation.
+        A `return` in exactly one outcome leaves the rest of the enclosing function under the other outcome's condition;
+        a `return` in both ends the function with the conditional value."""
+        g = show(cond)[:200]
+        out = []
+        for guard, thunk in ((g, then), (_neg(g), other)):
+            base = len(self.gstack)
+            self.gstack.append(guard)
+            ret = False
+            try:
+                v = thunk()
+            except T.Return as r:
+                v, ret = r.v, True
+            finally:
+                inner = self.gstack[base + 1:]
+                del self.gstack[base:]
+            out.append((v, ret, inner))
+        (tv, tret, tin), (ov, oret, oin) = out
+        if tret and oret:
+            raise T.Return(term("if", cond, tv, ov))
+        # conditions that persist after the construct: the outcome that did not return, and the negation of early exits nested in it
+        if tret:
+            self.cret.append((T.sym(" and ".join(self.gstack + [g])), tv))
+            self.gstack.append(_neg(g))
+        if oret:
+            self.cret.append((T.sym(" and ".join(self.gstack + [_neg(g)])), ov))
+            self.gstack.append(g)
+        for guard, inner, ret in ((g, tin, tret), (_neg(g), oin, oret)):
+            if inner and not ret:
+                self.gstack.append("not (%s and not (%s))" % (guard, " and ".join(inner)))
+        if tv == ov and not tret and not oret:
+            return tv                               # the same value either way (effects keep their conditions)
+        return term("if", cond, term("return", tv) if tret else tv, term("return", ov) if oret else ov)
+
+    def _bind_rest(self, pat, env):
+        for i, nm in H.pat_bindings(pat):
+            env.setdefault(i, T.sym(nm))
 
     # ------------------------------------------------------------------ statements
     def stmt(self, s, env):
@@ -281,19 +369,27 @@ class Ev(T.Evaluator):
         sv = self.ev(n["scrut"], env)
         if _has_positive_pos(sv) and any(_pat_has_nonzero_int(a["pat"]) for a in n["arms"]):
             return T.sym("match of a character position against a non-zero constant")
-        for i, a in enumerate(n["arms"]):
+        return self._arms(n["arms"], sv, env)
+
+    def _arms(self, arms, sv, env):
+        for i, a in enumerate(arms):
             r = T.match_pat(a["pat"], sv, env)
             if r is False:
                 continue
+            cond = None
             if r is None:
-                return T.sym("match %s {…}" % show(sv))
+                self._bind_rest(a["pat"], env)
+                cond = T.sym("%s matches %s" % (show(sv), H.render_pat(a["pat"])))
             if "guard" in a:
                 g = self.ev(a["guard"], env)
                 if g == ("b", False):
                     continue
                 if g != ("b", True):
-                    return T.sym("undecided guard %s" % show(g))
-            return self.ev(a["body"], env)
+                    cond = g if cond is None else T.sym("%s && %s" % (show(cond), show(g)))
+            if cond is None:
+                return self.ev(a["body"], env)
+            # pattern or guard not decided by the abstract input: this arm under the condition, the remaining arms under its negation
+            return self._fork(cond, lambda: self.ev(a["body"], env), lambda: self._arms(arms[i + 1:], sv, env))
         return T.sym("<no arm>")
 
     def if_(self, n, env):
@@ -307,8 +403,15 @@ class Ev(T.Evaluator):
                 return self.ev(n["then"], env)
             if r is False:
                 return self.ev(n["else"], env) if "else" in n else ("t", [])
-            return T.sym("if let … = %s" % show(v))
-        return super().if_(n, env)
+            self._bind_rest(c["pat"], env)
+            cv = T.sym("%s matches %s" % (show(v), H.render_pat(c["pat"])))
+        else:
+            cv = self.ev(n["cond"], env)
+            if cv == ("b", True):
+                return self.ev(n["then"], env)
+            if cv == ("b", False):
+                return self.ev(n["else"], env) if "else" in n else ("t", [])
+        return self._fork(cv, lambda: self.ev(n["then"], env), lambda: self.ev(n["else"], env) if "else" in n else ("t", []))
 
     def _loop(self, n, env):
         for _ in range(MAX_UNROLL):
@@ -335,7 +438,10 @@ class Ev(T.Evaluator):
             v = self.ev(n["r"], env)
             l = H.peel(n["l"], refs=False)
             if l.get("k") == "path" and l["res"].get("r") == "local":
-                env[l["res"]["id"]] = v            # re-assignment of a local (loop state)
+                lid = l["res"]["id"]
+                if self.gstack and lid in env:     # re-assignment under an undecided condition: the value is conditional
+                    v = term("if", T.sym(" and ".join(self.gstack)), v, env[lid])
+                env[lid] = v                       # re-assignment of a local (loop state)
             else:
                 self.fx.append(("assign", recv_path(n["l"]), v))
             return ("t", [])
@@ -471,10 +577,7 @@ class Ev(T.Evaluator):
                 e2 = {}
                 for p, a in zip(body["params"], args):
                     T.match_pat(p, a, e2)
-                try:
-                    res = self.ev(body["body"], e2)
-                except T.Return as r:
-                    res = r.v
+                res = self._frame(lambda: self.ev(body["body"], e2))
                 if self.opaque_inline and has_sym(res):
                     return term("call:" + nm, *args)
                 return res
@@ -742,18 +845,15 @@ class Ev(T.Evaluator):
         for p, a in zip(body["params"], arg_values):
             T.match_pat(p, a, env)
         self.effects = []
+        del self.gstack[:]
         try:
-            return self.ev(body["body"], env)
-        except T.Return as r:
-            return r.v
+            return self._frame(lambda: self.ev(body["body"], env))
         except T.Break:
             return T.sym("<break>")
 
     def run_expr(self, node, env):
         try:
-            return self.ev(node, env)
-        except T.Return as r:
-            return ("v", "return", [r.v])
+            return self._frame(lambda: self.ev(node, env), wrap_return=lambda v: ("v", "return", [v]))
         except T.Break:
             return T.sym("<break>")
 
